@@ -423,6 +423,7 @@ fn run_on<I: Interface + 'static>(sim: &Sim, prop: &str, tier: Tier, kind: LinkK
     // ---- phase 1: sends interleaved with ticks of both nodes
     let mut idle = 0;
     while sent < planned.len() {
+        sim.idle_gap();
         let act = if idle >= 6 { 0 } else { sim.draw(3) };
         match act {
             0 => {
